@@ -503,8 +503,8 @@ pub fn check(id: u32, cfg: &RunCfg, findings: &Findings) -> Report {
   }
 
   // 2. state sweeps of generated small layouts (proptest generates and shrinks the layout)
-  let sweep_cases: u32 = if quick { 18 } else { 600 };
-  let sc = SweepCfg { max_held: if quick { 4 } else { 4 }, cap_states: if quick { 40_000 } else { 250_000 }, with_release_all: matches!(id, 1 | 2 | 19) };
+  let sweep_cases: u32 = if quick { 64 } else { 1_500 };
+  let sc = SweepCfg { max_held: if quick { 4 } else { 4 }, cap_states: if quick { 60_000 } else { 300_000 }, with_release_all: matches!(id, 1 | 2 | 19) };
   let sweep_alpha = if quick { 6 } else { 7 };
   {
     let plan_ref = &plan;
@@ -566,7 +566,7 @@ pub fn check(id: u32, cfg: &RunCfg, findings: &Findings) -> Report {
   let cat: Vec<CatalogueEntry> = catalogue().into_iter().filter(|e| case_relevant(&plan, &e.layout)).collect();
   if !cat.is_empty() {
     let cat_ref = &cat;
-    let per_shard: u32 = if quick { 2 } else { 24 };
+    let per_shard: u32 = if quick { 4 } else { 40 };
     let (st, fail) = run_prop_iters(
       cfg,
       &format!("{}-catalogue-sweep", name),
@@ -604,7 +604,7 @@ pub fn check(id: u32, cfg: &RunCfg, findings: &Findings) -> Report {
       }
     }
     let hist = HistOpts { max_events: if quick { 40 } else { 150 }, max_held: 5, raw_percent: 6, release_all_percent: 2 };
-    let per_shard: u32 = if quick { 400 } else { 12_000 };
+    let per_shard: u32 = if quick { 1_500 } else { 30_000 };
     let (st, fail) = run_prop(
       cfg,
       &format!("{}-catalogue-random", name),
@@ -635,7 +635,7 @@ pub fn check(id: u32, cfg: &RunCfg, findings: &Findings) -> Report {
 
   // 4. random layouts x random histories
   let hist = HistOpts { max_events: if quick { 40 } else { 150 }, max_held: 5, raw_percent: 6, release_all_percent: if matches!(id, 1 | 2 | 19) { 3 } else { 1 } };
-  let per_shard: u32 = if quick { 3_000 } else { 80_000 };
+  let per_shard: u32 = if quick { 20_000 } else { 200_000 };
   let plan_ref = &plan;
   let (st, fail) = run_prop(
     cfg,
